@@ -124,6 +124,23 @@ def return_paths(paths: list[Path]) -> list[Path]:
     return [p for p in paths if p.kind == "return"]
 
 
+def split_conditional_returns(paths: list[Path]) -> list[Path]:
+    """`return a if c else b` (or `rv = a if c else b; return rv`) is the two paths of `if c: return a / else: return b`"""
+    import dataclasses
+    out: list[Path] = []
+    todo = list(paths)
+    while todo:
+        p = todo.pop(0)
+        v = p.value
+        if p.kind == "return" and v is not None and v[0] == "ite" and len(v) == 4 and len(out) + len(todo) < 256:
+            c = v[1]
+            todo.insert(0, dataclasses.replace(p, conds=p.conds + (("not", c),), value=v[3]))
+            todo.insert(0, dataclasses.replace(p, conds=p.conds + (c,), value=v[2]))
+        else:
+            out.append(p)
+    return out
+
+
 def raise_paths(paths: list[Path]) -> list[Path]:
     return [p for p in paths if p.kind == "raise"]
 
